@@ -128,6 +128,7 @@ type Explorer struct {
 	pathObs     []obsTerm
 	pathCovers  []string
 	known       map[string]*Term
+	httpReqs    []*value
 	pathViolated bool
 	foreign     bool
 
@@ -578,6 +579,7 @@ func (e *Explorer) resetPath(p []int) {
 	e.pathObs = nil
 	e.pathCovers = nil
 	e.known = map[string]*Term{}
+	e.httpReqs = nil
 	e.pathViolated = false
 	e.foreign = false
 }
